@@ -1788,3 +1788,67 @@ def rule_last_seen(F, rep, rid, pred, where_txt):
     if n < 20:
         raise AnalysisBroken('%s: only %d functions in scope' % (rid, n))
     rep.ok(rid, 'scan', None, 'no last-group-only memory in the loops of %d functions of %s (fixture: 1 of 2 functions flagged, as expected)' % (n, where_txt))
+
+
+def _assigned_locals(n):
+    out = set()
+    for a in walk(n or {}):
+        if a.get('k') == 'Bin' and a.get('op') == '=' and a['c'][0].get('k') == 'Ref' and a['c'][0].get('dk') == 'local':
+            out.add(a['c'][0]['d'])
+        elif a.get('k') == 'Call' and a.get('opc') == '=' and len(a.get('c', [])) == 2 and a['c'][0].get('k') == 'Ref' and a['c'][0].get('dk') == 'local':
+            out.add(a['c'][0]['d'])
+    return out
+
+
+def fallback_guards(f):
+    """`loop { v = ...; }  if (<something is empty / null>) { v = fallback; }` as adjacent statements: [(if-statement, guard mentions v?, v names)].
+    The guard of such a fallback has to test the RESULT v: testing the collection that was searched lets an entry that yields an empty result
+    suppress the fallback."""
+    out = []
+    for C in f.walk():
+        if C.get('k') != 'Compound':
+            continue
+        items = C.get('c', [])
+        for i, S in enumerate(items):
+            if i == 0 or S.get('k') != 'If' or role(S, 'else') is not None or items[i - 1].get('k') not in ('RangeFor', 'For', 'While'):
+                continue
+            common = _assigned_locals(role(S, 'then')) & _assigned_locals(role(items[i - 1], 'body'))
+            if not common:
+                continue
+            cnd = role(S, 'cond')
+            # an emptiness / null / not-found test, not negated
+            emptiness = False
+            for x in walk(cnd):
+                if x.get('k') == 'Call' and x.get('fn') == 'empty' and not any(u.get('k') == 'Un' and u.get('op') == '!' and any(y is x for y in walk(u)) for u in walk(cnd)):
+                    emptiness = True
+                if x.get('k') != 'Un' and null_test(x) is not None and null_test(x)[1] is False and not any(u.get('k') == 'Un' and u.get('op') == '!' and any(y is x for y in walk(u)) for u in walk(cnd)):
+                    emptiness = True
+                if x.get('k') == 'Un' and x.get('op') == '!' and x['c'][0].get('k') in ('Ref', 'Cast') and 'bool' in (x['c'][0].get('t') or 'bool'):
+                    emptiness = True
+            if not emptiness:
+                continue
+            mentions = any(x.get('k') == 'Ref' and x.get('d') in common for x in walk(cnd))
+            names = sorted({x.get('n') for x in walk(role(S, 'then')) if x.get('k') == 'Ref' and x.get('d') in common})
+            out.append((S, mentions, names))
+    return out
+
+
+def rule_fallback_guards(F, rep, rid, pred, where_txt, floor=1):
+    from facts import fixture_funcs
+    rep.rule(rid, 'in %s, a fallback that follows a search loop and fills in the same result (`for (...) v = ...;  if (<empty>) v = fallback;`) is guarded by the result being empty, not by the searched collection being empty: '
+                  'a collection entry that yields an empty result (an indirectly equivalent pair that never had a connection id) must still fall back (else the id recorded on the pair itself is lost and printed connections lose their id)' % where_txt)
+    fx = fixture_funcs('loopstate')
+    b, g = fallback_guards(fx['fixtureFallbackBad']), fallback_guards(fx['fixtureFallbackGood'])
+    if len(b) != 1 or b[0][1] or len(g) != 1 or not g[0][1]:
+        raise AnalysisBroken('%s: the detector does not separate the two fixture functions (sa/fixtures/src/loopstate.cpp)' % rid)
+    n = 0
+    for g_ in F.funcs.values():
+        if not pred(g_):
+            continue
+        for S, mentions, names in fallback_guards(g_):
+            n += 1
+            rep.check(mentions, rid, '%s|%s' % (g_.short, '+'.join(names)), g_.where(S),
+                      '%s: the fallback for `%s` after the loop is guarded by `%s`, which does not look at `%s`: when the loop ran but produced an empty result the fallback is skipped' % (g_.short, '+'.join(names), render(role(S, 'cond'))[:50], '+'.join(names)),
+                      'guard tests the result')
+    if n < floor:
+        raise AnalysisBroken('%s: %d fallbacks after a search loop found (%d confirmed)' % (rid, n, floor))
